@@ -203,7 +203,12 @@ class MCNP_Lexer(Lexer):
     """
 
     # the guard keeps exponents (1e5, 1e+5) out; a trailing e that starts no exponent (elib=03e) is a letter
-    @_(r"[+\-]?\d+(?!e[+\-]?\d)[a-z]+")
+    # the second pattern is a multiply shortcut whose factor is not an integer (0.5m, 1.5e1m, .5m): without it
+    # the NUMBER rule below would take the factor and leave the m behind
+    @_(
+        r"[+\-]?\d+(?!e[+\-]?\d)[a-z]+",
+        r"[+\-]?(\d+\.?\d*|\.\d+)(e[+\-]?\d+|[+\-]\d+)?m(?![a-z])",
+    )
     def NUMBER_WORD(self, t):
         """
         An integer followed by letters.
@@ -254,7 +259,9 @@ class MCNP_Lexer(Lexer):
         "INTERPOLATE": re.compile(r"^\d*I$", re.I),
         "JUMP": re.compile(r"^\d*J$", re.I),
         "LOG_INTERPOLATE": re.compile(r"^\d*I?LOG$", re.I),
-        "MULTIPLY": re.compile(r"^[+\-]?[0-9]+\.?[0-9]*E?[+\-]?[0-9]*M$", re.I),
+        "MULTIPLY": re.compile(
+            r"^[+\-]?([0-9]+\.?[0-9]*|\.[0-9]+)E?[+\-]?[0-9]*M$", re.I
+        ),
         "REPEAT": re.compile(r"^\d*R$", re.I),
     }
 
